@@ -7,7 +7,7 @@ use vharness::choose::Chooser;
 use vharness::refpdf::{self, FileSpec, Layout, Style};
 use vharness::{cmp, strict, util, Mode, Run};
 
-const N_DOCS: usize = 19;
+const N_DOCS: usize = 25;
 const ENTRY: &str = "entry points disagree: ";
 
 #[derive(Debug, Clone, PartialEq)]
@@ -211,7 +211,7 @@ fn main() {
                     jobs.push((*i, o));
                 }
             }
-            if doc == 16 && !run.thorough {
+            if (doc == 16 || doc == 24) && !run.thorough {
                 // the 300-string document: instance-level deviations only at the first 40 and last 60 choice points
                 // (header, first members, container, cross-reference data); all points in the thorough tier
                 let np = points.len();
@@ -251,7 +251,7 @@ fn main() {
                             pair_idx += 1;
                             // quick tier: the residue class of pairs selected by the seed (1/4 of them)
                             // (300-object document, quick tier: pairs that involve a stream filter class only)
-                            let big_ok = doc != 16 || run.thorough || cls[a].0.ends_with(".filter") || cls[b].0.ends_with(".filter");
+                            let big_ok = (doc != 16 && doc != 24) || run.thorough || cls[a].0.ends_with(".filter") || cls[b].0.ends_with(".filter");
                             if big_ok && (run.thorough || pair_idx % 4 == run.seed % 4) {
                                 cjobs.push(vec![(cls[a].0, oa), (cls[b].0, ob)]);
                             }
